@@ -21,6 +21,8 @@ func main() {
 		cmdCheck(os.Args[2:])
 	case "dyn":
 		cmdDyn(os.Args[2:])
+	case "astwrites":
+		cmdAstWrites()
 	case "writers":
 		if len(os.Args) == 2 {
 			cmdWriterKeys()
